@@ -53,7 +53,7 @@ class RuleResult:
         self.unrecognised_items = []
 
     def _add(self, status, site, construct, detail=None, reason=""):
-        if isinstance(site, Func):
+        if isinstance(site, Func) or (not isinstance(site, str) and hasattr(site, "qualname")):
             site = site.qualname
         if isinstance(construct, ast.AST):
             construct = norm(construct)
@@ -78,7 +78,7 @@ class RuleResult:
         """The anchor's shape could not be interpreted (neither confirmed nor
         refuted).  Never a pass and never an accusation: if the rule has no
         violation to report, the run ends as an analysis error (exit 2)."""
-        if isinstance(site, Func):
+        if isinstance(site, Func) or (not isinstance(site, str) and hasattr(site, "qualname")):
             site = site.qualname
         self.unrecognised_items.append(f"{site.split('::')[-1]} :: {construct}" + (f" ({reason})" if reason else ""))
 
